@@ -175,7 +175,9 @@ func ReadIgnoreAnnotations(cfg *config.Config, pass *analysis.Pass) *util.Ignore
 // Example: var x int // @ignore CODE1
 func findInlineNode(file *ast.File, comment *ast.Comment, fset *token.FileSet) (start token.Pos, end token.Pos, found bool) {
 	commentPos := comment.Pos()
-	commentLine := fset.Position(commentPos).Line
+	// All line numbers below are PHYSICAL lines of the file: //line directives (generated code)
+	// change the reported line but not where the comment and the code actually are
+	commentLine := fset.PositionFor(commentPos, false).Line
 
 	// Binary search to find the declaration containing the comment
 	idx := sort.Search(len(file.Decls), func(i int) bool {
@@ -184,7 +186,7 @@ func findInlineNode(file *ast.File, comment *ast.Comment, fset *token.FileSet) (
 
 	// A comment that trails a declaration ending on the same line
 	// (var x T // @ignore CODE) lies after that declaration: it is inline for that line
-	if idx > 0 && fset.Position(file.Decls[idx-1].End()).Line == commentLine {
+	if idx > 0 && fset.PositionFor(file.Decls[idx-1].End(), false).Line == commentLine {
 		if fileContent := fset.File(commentPos); fileContent != nil {
 			return fileContent.LineStart(commentLine), comment.End(), true
 		}
@@ -215,7 +217,7 @@ func findInlineNode(file *ast.File, comment *ast.Comment, fset *token.FileSet) (
 			return false
 		}
 
-		nodeEndLine := fset.Position(n.End()).Line
+		nodeEndLine := fset.PositionFor(n.End(), false).Line
 
 		// Check if this node ends on the same line as the comment
 		if nodeEndLine == commentLine {
@@ -225,7 +227,7 @@ func findInlineNode(file *ast.File, comment *ast.Comment, fset *token.FileSet) (
 
 		// A line may also hold only the opening of a construct ("default:", "select {",
 		// "var ("): the node then starts on the comment's line and ends further down
-		if fset.Position(n.Pos()).Line == commentLine {
+		if fset.PositionFor(n.Pos(), false).Line == commentLine {
 			hasCodeOnLine = true
 			return false
 		}
